@@ -37,6 +37,26 @@ type c04Ev struct {
 	s    int    // stream index 0 (A) / 1 (B)
 	n    int
 	pad  int // -1: unpadded; >=0: PADDED flag with this pad length on the last frame
+	dyn  int // data only: 1 = n is the currently advertised stream window, 2 = that + 1
+}
+
+// c04QuotaAlphabet is the menu of the "bdp-quota" scenario: the server allows
+// one concurrent stream, stream A is open, NewStream for B is issued while A
+// still holds the quota (so it parks between building the stream object and
+// registering it), a DATA burst on A makes the BDP estimator raise the window,
+// closing A lets B register; B is then sent up to the window the peer was told.
+func c04QuotaAlphabet() []c04Ev {
+	L := c04WL
+	return []c04Ev{
+		{name: "newB", kind: "newB", s: 1},
+		{name: "closeA", kind: "closeA", s: 0},
+		{name: fmt.Sprintf("dataA(%d)", L), kind: "data", s: 0, n: L, pad: -1},
+		{name: fmt.Sprintf("readA(%d)", 3*L), kind: "read", s: 0, n: 3 * L},
+		{name: "dataB(1)", kind: "data", s: 1, n: 1, pad: -1},
+		{name: "dataB(window)", kind: "data", s: 1, pad: -1, dyn: 1},
+		{name: "dataB(window+1)", kind: "data", s: 1, pad: -1, dyn: 2},
+		{name: "readB(1)", kind: "read", s: 1, n: 1},
+	}
 }
 
 func c04WireAlphabet() []c04Ev {
@@ -81,10 +101,13 @@ type c04ReadOp struct {
 	err  error
 }
 
-// c04WireRun executes one history. static selects ConnectOptions.StaticWindowSize
-// (no BDP estimator); otherwise the BDP estimator is live and the peer acks its
-// pings at once (zero virtual RTT), so large arrivals raise the window.
-func c04WireRun(t *testing.T, static bool, evs []c04Ev) (res c04WireRes) {
+// c04WireRun executes one history. Mode "static" selects
+// ConnectOptions.StaticWindowSize (no BDP estimator); otherwise the BDP estimator
+// is live and the peer acks its pings after each burst (zero virtual RTT), so
+// large arrivals raise the window. Mode "bdp-quota" additionally advertises
+// MAX_CONCURRENT_STREAMS=1 and opens only stream A during set-up.
+func c04WireRun(t *testing.T, mode string, evs []c04Ev) (res c04WireRes) {
+	static, quota := mode == "static", mode == "bdp-quota"
 	res.skipAt = -1
 	res.obs = map[string]bool{}
 	synctest.Test(t, func(t *testing.T) {
@@ -96,7 +119,11 @@ func c04WireRun(t *testing.T, static bool, evs []c04Ev) (res c04WireRes) {
 		cconn, sconn := wire.Pipe()
 		peer := wire.NewServerPeer(sconn)
 		peer.AutoAckSettings = true
-		peer.WriteSettings()
+		if quota {
+			peer.WriteSettings(http2.Setting{ID: http2.SettingMaxConcurrentStreams, Val: 1})
+		} else {
+			peer.WriteSettings()
+		}
 		ctx, cancel := context.WithCancel(context.Background())
 		defer cancel()
 		dial := func(context.Context, string) (net.Conn, error) { return cconn, nil }
@@ -108,6 +135,14 @@ func c04WireRun(t *testing.T, static bool, evs []c04Ev) (res c04WireRes) {
 		}
 		tr := ct.(*http2Client)
 		var reads []*c04ReadOp
+		// asynchronous NewStream for B (quota scenario)
+		var newB struct {
+			mu     sync.Mutex
+			issued bool
+			done   bool
+			s      *ClientStream
+			err    error
+		}
 		defer func() {
 			res.log = peer.LogString()
 			tr.Close(errors.New("verif: history finished"))
@@ -120,9 +155,19 @@ func c04WireRun(t *testing.T, static bool, evs []c04Ev) (res c04WireRes) {
 				}
 				ro.mu.Unlock()
 			}
+			newB.mu.Lock()
+			if newB.issued && !newB.done && res.engine == "" {
+				res.engine = "the NewStream goroutine did not finish after Close"
+			}
+			newB.mu.Unlock()
 		}()
 		var strs [2]*ClientStream
+		respHdr := [][2]string{{":status", "200"}, {"content-type", "application/grpc"}}
+		synctest.Wait() // the server's SETTINGS (stream quota) are applied
 		for i := range strs {
+			if quota && i == 1 {
+				break // B is created by the newB event
+			}
 			s, err := tr.NewStream(ctx, &CallHdr{Host: "verif", Method: "/s/m"}, nil)
 			if err != nil {
 				res.engine = "NewStream: " + err.Error()
@@ -132,7 +177,9 @@ func c04WireRun(t *testing.T, static bool, evs []c04Ev) (res c04WireRes) {
 		}
 		synctest.Wait()
 		for _, s := range strs {
-			peer.WriteHeaders(s.id, [][2]string{{":status", "200"}, {"content-type", "application/grpc"}}, false)
+			if s != nil {
+				peer.WriteHeaders(s.id, respHdr, false)
+			}
 		}
 		synctest.Wait()
 
@@ -144,7 +191,12 @@ func c04WireRun(t *testing.T, static bool, evs []c04Ev) (res c04WireRes) {
 		goaway := false
 		var pings [][8]byte
 		seen := 0
-		idx := map[uint32]int{strs[0].id: 0, strs[1].id: 1}
+		idx := map[uint32]int{strs[0].id: 0}
+		if strs[1] != nil {
+			idx[strs[1].id] = 1
+		}
+		var bID uint32 // quota scenario: B's stream id once its HEADERS reached the peer
+		bAnswered := false
 		scan := func() {
 			lg := peer.Log()
 			for ; seen < len(lg); seen++ {
@@ -171,6 +223,14 @@ func c04WireRun(t *testing.T, static bool, evs []c04Ev) (res c04WireRes) {
 					}
 				case "GOAWAY":
 					goaway = true
+				case "HEADERS":
+					if _, known := idx[f.Stream]; !known && quota && f.EndHdrs {
+						// a new stream starts with the initial window the peer was
+						// last told (SETTINGS are processed in log order)
+						idx[f.Stream] = 1
+						bID = f.Stream
+						W[1] = iws
+					}
 				case "PING":
 					if !f.Ack {
 						var d [8]byte
@@ -197,6 +257,20 @@ func c04WireRun(t *testing.T, static bool, evs []c04Ev) (res c04WireRes) {
 		}
 		check := func(after string) {
 			scan()
+			if quota {
+				newB.mu.Lock()
+				if newB.done && newB.err == nil && strs[1] == nil {
+					strs[1] = newB.s
+				}
+				newB.mu.Unlock()
+				if bID != 0 && !bAnswered && strs[1] != nil {
+					bAnswered = true
+					peer.WriteHeaders(bID, respHdr, false)
+					synctest.Wait()
+					scan()
+					res.obs["quota-B-registered-after-park"] = true
+				}
+			}
 			consume()
 			if goaway || peer.Closed() {
 				fail("connection-error", "after %s: the client closed/failed the connection (goaway=%v closed=%v) although the connection window was never overrun", after, goaway, peer.Closed())
@@ -211,7 +285,7 @@ func c04WireRun(t *testing.T, static bool, evs []c04Ev) (res c04WireRes) {
 				fail("conn-ledger-mismatch", "after %s: wire ledger Wc=%d but trInFlow limit-unacked=%d", after, Wc, got)
 			}
 			for i, s := range strs {
-				if dead[i] {
+				if dead[i] || s == nil || (i == 1 && quota && !bAnswered) {
 					continue
 				}
 				nm := string(rune('A' + i))
@@ -275,16 +349,59 @@ func c04WireRun(t *testing.T, static bool, evs []c04Ev) (res c04WireRes) {
 		padding := make([]byte, 8)
 
 		for ei, ev := range evs {
-			if len(res.fails) > 0 {
+			hard := false
+			for _, f := range res.fails {
+				// an in-package ledger mismatch does not end the history: its
+				// behavioural consequence (if any) is reported as well
+				if f.key != "ledger-mismatch" {
+					hard = true
+				}
+			}
+			if hard {
 				break // the history ends at its first failing event
 			}
 			i := ev.s
 			nm := string(rune('A' + i))
 			switch ev.kind {
-			case "data":
-				if dead[i] {
+			case "newB":
+				newB.mu.Lock()
+				issued := newB.issued
+				newB.issued = true
+				newB.mu.Unlock()
+				if !quota || issued {
 					res.skipAt = ei
 					return
+				}
+				go func() {
+					s, err := tr.NewStream(ctx, &CallHdr{Host: "verif", Method: "/s/m"}, nil)
+					newB.mu.Lock()
+					newB.done, newB.s, newB.err = true, s, err
+					newB.mu.Unlock()
+				}()
+				synctest.Wait()
+				check(ev.name)
+				if strs[1] == nil {
+					res.obs["quota-newB-parked"] = true
+				}
+			case "closeA":
+				if !quota || dead[0] {
+					res.skipAt = ei
+					return
+				}
+				// the application cancels A: RST_STREAM(CANCEL) is expected and is
+				// not a flow-control rejection; A leaves the ledger
+				dead[0] = true
+				avail[0], reqRem[0] = 0, 0
+				strs[0].Close(errors.New("verif: application cancels A"))
+				synctest.Wait()
+				check(ev.name)
+			case "data":
+				if dead[i] || strs[i] == nil || (i == 1 && quota && !bAnswered) {
+					res.skipAt = ei
+					return
+				}
+				if ev.dyn > 0 {
+					ev.n = int(iws) + ev.dyn - 1
 				}
 				// frames: full unpadded frames; with padding, a final padded frame
 				type frame struct{ chunk, overhead int }
@@ -363,7 +480,7 @@ func c04WireRun(t *testing.T, static bool, evs []c04Ev) (res c04WireRes) {
 					check(ev.name + "+pingack")
 				}
 			case "read", "hdr":
-				if dead[i] || cur[i] != nil {
+				if dead[i] || cur[i] != nil || strs[i] == nil || (i == 1 && quota && !bAnswered) {
 					res.skipAt = ei
 					return
 				}
@@ -430,11 +547,15 @@ func TestVerif_C04_Wire(t *testing.T) {
 	defer r.Finish()
 	alpha := c04WireAlphabet()
 	depth := r.Pick(4, 5)
-	r.Rule(P, fmt.Sprintf("every event sequence of length %d (checked after every frame, so all shorter sequences are covered as prefixes) over %d events {DATA on stream A in 7 sizes around the 65535 window, 4 padded variants, DATA on stream B, Read/ReadMessageHeader of 5 sizes on A and 2 on B}, once with a static window and once with the live BDP estimator (peer acks the BDP ping after each DATA burst at zero virtual RTT), on a real http2Client against a scripted raw server; non-trivial = history in which the client emitted a WINDOW_UPDATE or rejected an overrun", depth, len(alpha)))
+	r.Rule(P, fmt.Sprintf("every event sequence of length %d (checked after every frame, so all shorter sequences are covered as prefixes) over %d events {DATA on stream A in 7 sizes around the 65535 window, 4 padded variants, DATA on stream B, Read/ReadMessageHeader of 5 sizes on A and 2 on B}, once with a static window and once with the live BDP estimator (peer acks the BDP ping after each DATA burst at zero virtual RTT), on a real http2Client against a scripted raw server; plus scenario bdp-quota (server MAX_CONCURRENT_STREAMS=1; events newB [NewStream parks on stream quota], closeA, dataA(L) [BDP raise], readA(3L), dataB(1 | advertised window | window+1), readB(1); length %d): a stream registered after a window raise must honour the window the peer was told; non-trivial = history in which the client emitted a WINDOW_UPDATE or rejected an overrun", depth, len(alpha), r.Pick(5, 7)))
 	r.Assume(P, "the scripted peer learns window updates at quiescence (synctest.Wait after every frame), so 'conforming' is judged per DATA frame against every update the client had emitted by then")
 	r.Assume(P, "connection-level overruns are outside the domain (grpc-go does not police the connection window; the menu cannot produce one because the client replenishes it independently of reads)")
 	byName := map[string]c04Ev{}
 	for _, e := range alpha {
+		byName[e.name] = e
+	}
+	qalpha := c04QuotaAlphabet()
+	for _, e := range qalpha {
 		byName[e.name] = e
 	}
 	byName["readA(2147483647)"] = c04Ev{name: "readA(2147483647)", kind: "read", s: 0, n: 1<<31 - 1}
@@ -468,7 +589,7 @@ func TestVerif_C04_Wire(t *testing.T) {
 			}
 			evs = append(evs, e)
 		}
-		res := c04WireRun(t, rp.Mode == "static", evs)
+		res := c04WireRun(t, rp.Mode, evs)
 		r.Eval(P, 1)
 		fmt.Printf("replay mode=%s events=%v skipAt=%d fails=%v\n  states=%v\n  log=%s\n", rp.Mode, rp.Events, res.skipAt, res.fails, res.states, res.log)
 		report(rp.Mode, evs, res)
@@ -478,7 +599,13 @@ func TestVerif_C04_Wire(t *testing.T) {
 	states := map[string]struct{}{}
 	var hist, skipped, transitions int64
 	failClasses := map[string]int{}
-	for _, mode := range []string{"static", "bdp"} {
+	type wireScenario struct {
+		mode  string
+		alpha []c04Ev
+		depth int
+	}
+	for _, sc := range []wireScenario{{"static", alpha, depth}, {"bdp", alpha, depth}, {"bdp-quota", qalpha, r.Pick(5, 7)}} {
+		mode, alpha, depth := sc.mode, sc.alpha, sc.depth
 		bad := map[string]bool{} // inapplicable prefixes (as index strings)
 		od := make([]int, depth)
 		total := 1
@@ -515,7 +642,7 @@ func TestVerif_C04_Wire(t *testing.T) {
 			for k := range od {
 				evs[k] = alpha[od[k]]
 			}
-			res := c04WireRun(t, mode == "static", evs)
+			res := c04WireRun(t, mode, evs)
 			if res.engine != "" {
 				r.EngineError("wire-%s %s: %s", mode, c04EvNames(evs), res.engine)
 				return
@@ -551,12 +678,19 @@ func TestVerif_C04_Wire(t *testing.T) {
 				}
 				res.fails = keep
 				fe := evs[:min(len(evs), res.events+1)]
+				if res.skipAt >= 0 {
+					fe = evs[:res.skipAt] // a soft failure followed by an inapplicable event
+				}
 				report(mode, fe, res)
 				p := ""
 				for k := range fe {
 					p += string(rune('a' + od[k]))
 				}
-				bad[p] = true // already reported: do not re-run its extensions
+				for _, f := range res.fails {
+					if f.key != "ledger-mismatch" {
+						bad[p] = true // hard failure already reported: do not re-run its extensions
+					}
+				}
 			}
 		}
 	}
@@ -565,7 +699,7 @@ func TestVerif_C04_Wire(t *testing.T) {
 	// BDP estimator raises the window.
 	if sh, _ := r.Shard(); sh == 0 {
 		evs := []c04Ev{byName["readA(2147483647)"], byName[fmt.Sprintf("dataA(%d)", c04WL+1)]}
-		res := c04WireRun(t, false, evs)
+		res := c04WireRun(t, "bdp", evs)
 		hist++
 		transitions += int64(res.events)
 		if res.engine != "" {
